@@ -157,6 +157,81 @@ func coqName(key string) string {
 	return "go_" + key
 }
 
+// The unexported names the translation has to recognise - the reference field of Editor, the
+// type it points to and that type's three fields - are read off the struct declarations of the
+// package (a field of Editor whose type is a pointer to a struct made of a *Editor and two ints),
+// so that renaming them does not stop the translation.
+var (
+	refField  = "ref"
+	refType   = "parentRef"
+	refParent = "parent"
+	refStart  = "start"
+	refEnd    = "end"
+)
+
+func discoverRefNames(files []*ast.File) {
+	structs := map[string]*ast.StructType{}
+	for _, af := range files {
+		for _, d := range af.Decls {
+			gd, ok := d.(*ast.GenDecl)
+			if !ok || gd.Tok != token.TYPE {
+				continue
+			}
+			for _, sp := range gd.Specs {
+				ts := sp.(*ast.TypeSpec)
+				if st, ok := ts.Type.(*ast.StructType); ok {
+					structs[ts.Name.Name] = st
+				}
+			}
+		}
+	}
+	ed := structs["Editor"]
+	if ed == nil {
+		return
+	}
+	for _, f := range ed.Fields.List {
+		star, ok := f.Type.(*ast.StarExpr)
+		if !ok || len(f.Names) != 1 {
+			continue
+		}
+		tid, ok := star.X.(*ast.Ident)
+		if !ok {
+			continue
+		}
+		st := structs[tid.Name]
+		if st == nil {
+			continue
+		}
+		var parent string
+		var ints []string
+		okShape := true
+		for _, g := range st.Fields.List {
+			switch t := g.Type.(type) {
+			case *ast.StarExpr:
+				if id, ok := t.X.(*ast.Ident); ok && id.Name == "Editor" && len(g.Names) == 1 {
+					parent = g.Names[0].Name
+				} else {
+					okShape = false
+				}
+			case *ast.Ident:
+				if t.Name == "int" {
+					for _, n := range g.Names {
+						ints = append(ints, n.Name)
+					}
+				} else {
+					okShape = false
+				}
+			default:
+				okShape = false
+			}
+		}
+		if okShape && parent != "" && len(ints) == 2 {
+			refField, refType, refParent, refStart, refEnd = f.Names[0].Name, tid.Name, parent, ints[0], ints[1]
+			return
+		}
+	}
+}
+
 // parsePkg parses the non-test Go files of a package directory that are part of the normal build
 // (files behind a build constraint, such as the verif-tagged exports, are left out).
 func parsePkg(dir string) []*ast.File {
@@ -191,7 +266,11 @@ func parsePkg(dir string) []*ast.File {
 // the files of its package without the translation noticing).
 func newGemUnit(repo, dir string) *gemUnit {
 	u := &gemUnit{file: dir, decls: map[string]*ast.FuncDecl{}, done: map[string]gemSig{}, busy: map[string]bool{}}
-	for _, af := range parsePkg(filepath.Join(repo, dir)) {
+	files := parsePkg(filepath.Join(repo, dir))
+	if dir == "." {
+		discoverRefNames(files)
+	}
+	for _, af := range files {
 		for _, d := range af.Decls {
 			if fd, ok := d.(*ast.FuncDecl); ok && fd.Body != nil {
 				// plain functions by name, methods as Type.Name
@@ -258,7 +337,7 @@ func typeKind(e ast.Expr) (kind, bool) {
 			return kSb, true
 		}
 	case *ast.StarExpr:
-		if id, ok := v.X.(*ast.Ident); ok && id.Name == "parentRef" {
+		if id, ok := v.X.(*ast.Ident); ok && id.Name == refType {
 			return kRef, true
 		}
 	}
@@ -333,11 +412,11 @@ func (f *gemFn) exprIfKind(e ast.Expr, want kind) (string, kind) {
 	case *ast.SelectorExpr:
 		switch want {
 		case kRef:
-			if v.Sel.Name != "ref" {
+			if v.Sel.Name != refField {
 				return "", -1
 			}
 		case kEd:
-			if v.Sel.Name != "parent" {
+			if v.Sel.Name != refParent {
 				return "", -1
 			}
 		default:
@@ -392,18 +471,21 @@ func (f *gemFn) expr(e ast.Expr) (string, kind) {
 		f.bad("unknown identifier %s", v.Name)
 	case *ast.SelectorExpr:
 		// ed.ref: a nil reference panics when it is dereferenced; it is only ever dereferenced
-		if v.Sel.Name == "ref" {
+		if v.Sel.Name == refField {
 			if x, k := f.exprIfKind(v.X, kEd); k == kEd {
 				return f.hoist("ed_ref " + x), kRef
 			}
 		}
-		if v.Sel.Name == "start" || v.Sel.Name == "end" || v.Sel.Name == "parent" {
+		if v.Sel.Name == refStart || v.Sel.Name == refEnd || v.Sel.Name == refParent {
 			if x, k := f.exprIfKind(v.X, kRef); k == kRef {
-				if v.Sel.Name == "parent" {
+				if v.Sel.Name == refParent {
 					// a *Editor: only ever read through (*p or p.Field), so it is translated as the value
 					return "(ref_parent " + x + ")", kEd
 				}
-				return "(ref_" + v.Sel.Name + " " + x + ")", kInt
+				if v.Sel.Name == refStart {
+					return "(ref_start " + x + ")", kInt
+				}
+				return "(ref_end " + x + ")", kInt
 			}
 		}
 		if v.Sel.Name == "Text" {
@@ -605,7 +687,7 @@ func (f *gemFn) expr(e ast.Expr) (string, kind) {
 				}
 			}
 			// methods declared in the same file (helpers with a receiver), translated on demand
-			for _, tn := range []string{"Editor", "parentRef", "Options"} {
+			for _, tn := range []string{"Editor", refType, "Options"} {
 				fd, ok := f.unit.decls[tn+"."+sel.Sel.Name]
 				if !ok || (tn == "Editor" && tableMethod[sel.Sel.Name]) {
 					continue
